@@ -38,6 +38,9 @@ fn main() {
         "C03" => c03::run_check(replay),
         "C04" => c04::run_check(&args, replay),
         "C05" => c05::run_check(replay),
+        "C08" => events::run_check(events::Mode::C08, replay),
+        "C09" => events::run_check(events::Mode::C09, replay),
+        "C10" => events::run_check(events::Mode::C10, replay),
         "C16" => c16::run(replay),
         "C17" => c17::run(replay),
         "C18" => c18::run_check(replay),
